@@ -7,8 +7,8 @@ signatures, plus noise that must produce nothing.  All choices come from one ran
 
 FIXTURE_DECOS = ["pytest.fixture", "fixture", "pytest_asyncio.fixture"]
 SCOPES = ["function", "class", "module", "package", "session"]
-NAMES = ["alpha", "beta", "gamma", "delta", "client", "db", "tmp_thing", "é_fix", "名前"]
-PLAIN_NAMES = ["alpha", "beta", "gamma", "delta", "client", "db"]
+NAMES = ["alpha", "beta", "gamma", "delta", "client", "db", "tmp_thing", "é_fix", "名前", "cls"]
+PLAIN_NAMES = ["alpha", "beta", "gamma", "delta", "client", "db", "cls"]    # `cls` is an ordinary fixture name unless the function is a classmethod
 ANNOTATIONS = ["int", "str", "t.Iterator[int]", "Generator[int, None, None]", "int | None", '"Forward"',
                "Optional[Dict[str, int]]", "list[str]", "t.Any", "Iterator[Tuple[int, str]]", "None", "Callable[..., int]"]
 STR_FORMS = ['"{0}"', "'{0}'", '"""{0}"""', 'r"{0}"', '"{0}" ""', "'''{0}'''"]
